@@ -32,6 +32,7 @@ import (
 	"github.com/youchainhq/go-youchain/core/types"
 	"github.com/youchainhq/go-youchain/crypto"
 	"github.com/youchainhq/go-youchain/event"
+	"github.com/youchainhq/go-youchain/local"
 	"github.com/youchainhq/go-youchain/logging"
 	"github.com/youchainhq/go-youchain/params"
 	"github.com/youchainhq/go-youchain/staking"
@@ -684,11 +685,30 @@ func (s *Sim) commitWork(ns *nodeState) {
 	if err := engine.Prepare(chain, header); err != nil {
 		return // not a proposer in this (round, index)
 	}
-	statedb, err := chain.StateAt(parent.Root(), parent.ValRoot(), parent.StakingRoot())
+	stakingRoot := parent.StakingRoot()
+	if s.cfg.WithStaking {
+		yp, err := chain.VersionForRound(header.Number.Uint64())
+		if err != nil {
+			panic("networld: VersionForRound: " + err.Error())
+		}
+		stakingRoot = core.StakingRootForNewBlock(yp.StakingTrieFrequency, parent.Header())
+	}
+	statedb, err := chain.StateAt(parent.Root(), parent.ValRoot(), stakingRoot)
 	if err != nil {
 		panic("networld: StateAt: " + err.Error())
 	}
-	block, err := engine.FinalizeAndAssemble(chain, header, statedb, nil, nil)
+	var receipts []*types.Receipt
+	if s.cfg.WithStaking {
+		// as miner.worker.commitNewWork: end-of-block hooks (rewards, slashing, period end)
+		statedb.IntermediateRoot(true)
+		res, _, _ := chain.Processor().EndBlock(chain, header, nil, statedb, true, local.FakeRecorder())
+		for _, rc := range res {
+			if rc != nil {
+				receipts = append(receipts, rc)
+			}
+		}
+	}
+	block, err := engine.FinalizeAndAssemble(chain, header, statedb, nil, receipts)
 	if err != nil {
 		panic("networld: FinalizeAndAssemble: " + err.Error())
 	}
